@@ -70,7 +70,7 @@ RULE = ("mix of 4 case kinds: parser histories (22%: 1-60 requests through one t
         "{s1,s2,s3}, algs HS256/384/512/none/RS256-junk, exp/nbf/iat at +-1h, truncated/flipped/garbage tokens, "
         "Bearer/bearer/absent schemes), signed requests (43%: correctly signed + every single-field tampering + key/secret/"
         "fingerprint/header defects + timestamps at tol-1,tol,tol+1,+-5 and extreme/non-numeric values, strict and non-strict, "
-        "all methods, X-Request-Uri, encrypted bodies), RPC authenticator histories (15%: miniredis hash contents x metadata "
+        "all methods, X-Request-Uri, encrypted bodies; body framing in {declared Content-Length, unknown length -1 via an opaque reader, chunked through a real httptest.Server, declared length through a real server, empty body} x {correct, body tampered, signed-for-empty-body with a body sent}), RPC authenticator histories (15%: miniredis hash contents x metadata "
         "shapes x strict x outages); the thorough tier adds the original and all 6 single-field/key tamperings of 200 base requests. non-trivial = a history with both an accepted and a refused request / a signed request "
         "on a guarded method with a parsable header / an RPC history with both outcomes; distinct = distinct canonical case JSON")
 TRUSTED = ["golang-jwt/jwt v4 (signature + time-claim verdict per (Authorization header, secret) tabulated by the driver by "
@@ -85,6 +85,8 @@ ASSUMPTIONS = ["HMAC-SHA256 injective per key and SHA-256 injective (section hyp
                "'header decrypts' includes well-formedness of the decrypted secret (base64 key, numeric type)",
                "the signed path/query are the X-Request-Uri ones when that header is present and parseable",
                "a request announcing type=1 with a body additionally needs that body to decrypt (else 400, cryptohandler.go)",
+               "the framing of the body (Content-Length / chunked / unknown) is not an input of the Spec's accept predicate; the body hash is over the bytes sent",
+               "a type=1 request whose body length is unknown (ContentLength <= 0) is NOT decrypted by the gate: the handler receives the ciphertext (recorded note)",
                "sequential histories only (no concurrent requests through one parser)"]
 
 SECRETS = ["s1-7f3a9c", "s2-prev-51be", "s3-other-00d2"]
@@ -202,7 +204,7 @@ def _sig_base(rng):
          "plain": "key=%s; time={TS}; type=0" % key, "tsoff": rng.choice([0, 0, 1, -1, 3, -4]), "tsraw": "", "corrupt": False,
          "keyb64": key, "signkey": key, "signts": "{TS}", "signmeth": method,
          "signpath": _unescape(path), "signquery": query, "signbody": "{SENT}", "sigraw": None,
-         "b64cands": [""], "secretcands": [],
+         "b64cands": [""], "secretcands": [], "framing": _framing(rng),
          # generator's description of the request, for the Spec
          "intent": {"wellformed": True, "fp": fp, "type": 0, "variant": "valid"}}
     r = rng.random()
@@ -215,11 +217,22 @@ def _sig_base(rng):
     return c
 
 
+FRAMINGS = ["declared", "unknown", "chunked", "server"]
+
+
+def _framing(rng):
+    """how the body length reaches the server: Content-Length (handler called directly / through a real server),
+    unknown length (ContentLength -1: opaque reader / chunked transfer through a real server)"""
+    r = rng.random()
+    return "declared" if r < 0.5 else ("unknown" if r < 0.68 else ("chunked" if r < 0.88 else "server"))
+
+
 def _unescape(p):
     return re.sub(r"%([0-9A-Fa-f]{2})", lambda m: chr(int(m.group(1), 16)), p)
 
 
-SIG_VARIANTS = ["valid", "valid", "valid", "t-ts", "t-method", "t-path", "t-query", "t-body", "t-key", "routed-path",
+SIG_VARIANTS = ["valid", "valid", "valid", "t-ts", "t-method", "t-path", "t-query", "t-body", "t-body", "t-body-empty", "t-body-empty",
+                "empty-body", "t-key", "routed-path",
                 "off-in", "off-edge", "off-out-past", "off-out-future", "off-out-future", "ts-extreme", "ts-junk", "corrupt", "unknown-fp", "hdr-missing",
                 "hdr-shape", "hdr-dup", "plain-defect", "sig-junk", "other-method", "enc-ok", "enc-bad", "junk-secret"]
 
@@ -239,7 +252,17 @@ def gen_sig(rng, variant=None):
     elif v == "t-query":
         c["signquery"] = rng.choice([c["signquery"] + "&t=1", "", "x=2"]) if c["signquery"] not in ("", "x=2") else c["signquery"] + "&t=1"
     elif v == "t-body":
+        if c["body"] == "" and rng.random() < 0.7:
+            c["body"] = rng.choice(BODIES[1:])
         c["signbody"] = c["body"] + "!"
+    elif v == "t-body-empty":
+        # replay with a forged body: the signature was computed for the EMPTY body, a non-empty one is sent
+        if c["body"] == "":
+            c["body"] = rng.choice(BODIES[1:])
+        c["signbody"] = ""
+    elif v == "empty-body":
+        # declared 0 / no body at all, correctly signed
+        c["body"] = ""
     elif v == "t-key":
         c["signkey"] = rng.choice([k for k in KEYS if k != c["keyb64"]])
     elif v == "routed-path":
@@ -383,10 +406,17 @@ def generate(rng, tier, n):
         import random
         for _ in range(200):
             seed = rng.getrandbits(48)
-            for v in ["valid", "t-ts", "t-method", "t-path", "t-query", "t-body", "t-key"]:
+            for v in ["valid", "t-ts", "t-method", "t-path", "t-query", "t-body", "t-body-empty", "t-key"]:
                 c = gen_sig(random.Random(seed), v)
                 c["strict"] = True
                 cases.append(c)
+        for _ in range(60):
+            seed = rng.getrandbits(48)
+            for fr in FRAMINGS:
+                for v in ["valid", "t-body", "t-body-empty", "empty-body", "enc-ok"]:
+                    c = gen_sig(random.Random(seed), v)
+                    c["strict"], c["framing"] = True, fr
+                    cases.append(c)
     for _ in range(n):
         r = rng.random()
         if r < 0.22:
@@ -408,6 +438,12 @@ def search(rng, problems):
             c = gen_sig(rng, v)
             c["strict"] = True
             out.append(c)
+    for fr in FRAMINGS:
+        for v in ["valid", "t-body", "t-body-empty", "empty-body", "enc-ok", "enc-bad"]:
+            for _ in range(3):
+                c = gen_sig(rng, v)
+                c["strict"], c["framing"] = True, fr
+                out.append(c)
     for _ in range(30):
         c = gen_jwt(rng)
         c["secret"], c["prev"] = SECRETS[0], SECRETS[1]
@@ -542,10 +578,10 @@ def enc_sig(case, obs):
     q = "(mkq %s %s %s %s %s %s %s %s %s)" % (cbool(decrypts), cbytes(key), B(ts_text), copt(None if ts is None else cZ(ts)),
                                              B(obs["sig"]), B(obs["method"]), B(ep), B(eq), B(obs["sentbody"]))
     hdr = {"": 0, "wrong-time": 1, "invalid": 2}.get(obs["sighdr"], 9)
-    return "CSig (mksc %s %s %s %s %s %s %s %s %s %s %s %s %s %s %s %s %s %s)" % (
+    return "CSig (mksc %s %s %s %s %s %s %s %s %s %s %s %s %s %s %s %s %s %s %s)" % (
         cbool(case["strict"]), cZ(case["tol"]), cZ(obs["now0"]), cZ(obs["now1"]), clist([B(d) for d in case["decryptors"]]),
-        req, rsa, b64, mac, sha, url, cbool(obs["decbody"]), q, cbool(enc), cbool(skip),
-        cZ(obs["status"]), cbool(obs["ran"]), cN(hdr))
+        req, rsa, b64, mac, sha, url, {"ok": "DecOk", "err": "DecErr", "panic": "DecPanic"}[obs["decbody"]], q, cbool(enc), cbool(skip),
+        cZ(obs["status"]), cbool(obs["ran"]), cN(hdr), cbool(obs["panic"]))
 
 
 def rpc_steps(case):
@@ -640,6 +676,14 @@ def bucket(case, obs):
     elif k == "sig":
         out.append("sig:" + case["intent"]["variant"])
         out.append("sig:%s:%d%s" % ("strict" if case["strict"] else "lax", obs["status"], "" if obs["ran"] else ":blocked"))
+        out.append("sig:framing=%s:clen=%s%s" % (case.get("framing", "declared"), "-1" if obs["clen"] < 0 else ("0" if obs["clen"] == 0 else ">0"),
+                                               ":chunked" if obs.get("chunked") else ""))
+        if case["intent"]["variant"] in ("valid", "t-body", "t-body-empty", "empty-body", "enc-ok"):
+            out.append("sig:body:%s:%s:%s" % (case["intent"]["variant"], case.get("framing", "declared"), obs["status"]))
+        if obs["panic"]:
+            out.append("sig:GATE-PANIC")
+        if case["intent"]["type"] == 1 and obs["clen"] < 0 and obs["ran"] and obs["seenbody"] == obs["sentbody"] and obs["sentbody"] != "":
+            out.append("note:encrypted-body-of-unknown-length-reaches-handler-undecrypted")
         if obs["now0"] != obs["now1"]:
             out.append("sig:clock-ticked")
         if case["intent"]["variant"] == "routed-path" and obs["ran"]:
@@ -664,6 +708,10 @@ def explain(case, obs):
         return ("the JWT gate's observed (status, handler ran, context claims) contradicts C04.Exec.jwt_spec_ok: handler must run "
                 "iff the library accepts the bearer token under the current or previous secret (c04_jwt_iff); then the context holds "
                 "exactly the non-registered claims (c04_claims_visible), otherwise 401 and no handler (c04_jwt_401_no_handler)")
+    if k == "sig" and obs.get("panic"):
+        return ("the signature gate PANICKED instead of answering (%s): a correctly signed request announcing type=1 whose body "
+                "base64-decodes to the empty string reaches codec.EcbDecrypt -> pkcs5UnPadding, which indexes src[len(src)-1]; "
+                "expected 400 from cryptohandler (c04_gate_panic_iff: the gate panics only if decryptBody does)" % obs.get("panicval"))
     if k == "sig":
         return ("the signature gate's observed (status, handler ran) contradicts C04.Exec.sig_spec_ok: on GET/POST/PUT/DELETE in strict "
                 "mode the handler must run iff the header decrypts under a configured key, |timestamp-now| <= tolerance and the signature "
@@ -671,3 +719,9 @@ def explain(case, obs):
                 "c04_strict_403); non-strict and other methods pass through")
     return ("Authenticate's observed grpc code contradicts C04.Exec.rpc_spec_ok: reject without app/token metadata or on token mismatch, "
             "accept on match; no stored token / store failure rejected only in strict mode (c04_rpc_table)")
+
+
+def classify(case, obs):
+    if case["kind"] == "sig" and obs.get("panic") and "index out of range [-1]" in str(obs.get("panicval")):
+        return "ecb-empty-ciphertext-panic"
+    return None
